@@ -62,9 +62,10 @@ def history(fmt, spec):
 
 
 def outcomes_key(fmt, spec):
-    """the per-call outcomes of a history as a multiset of (call, outcome): the same for every rearrangement (C08_perm_history_*)"""
+    """the refused calls of a history with their exception class, as a multiset: the same for every rearrangement
+    (C08_perm_history_*: every call has the same outcome in both runs; accepted calls are visible in the mapping)"""
     h = history(fmt, spec)
-    rows = sorted(json.dumps([op, o], sort_keys=True, default=repr) for op, o in zip(strip_ops(spec["ops"]), h["outcomes"]))
+    rows = sorted(json.dumps([op, o], sort_keys=True, default=repr) for op, o in zip(strip_ops(spec["ops"]), h["outcomes"]) if o != "ok")
     return hashlib.sha1("\n".join(rows).encode()).hexdigest()
 
 
@@ -185,7 +186,7 @@ def boost(fmt, spec, rng, i):
     return spec
 
 
-def permute(fmt, spec, rng):
+def permute(fmt, spec, rng, reduce=False):
     """a random rearrangement of the history that keeps the calls of every order-sensitive cell (`cell_of`) in their relative order:
     any order of variants, arches, source packages, packages, modules; refused calls anywhere - the quantifier of
     C08_perm_history_rpms / _modules / _extra_files (`SameOrder slot h h'`)"""
@@ -195,6 +196,10 @@ def permute(fmt, spec, rng):
         k = json.dumps(c) if c is not None else "refused#%d" % i
         keys.append(k)
         groups.setdefault(k, []).append(o)
+    if reduce:
+        # rpms: only the LAST write of a slot is content
+        groups = dict((k, l[-1:]) for k, l in groups.items())
+        keys = list(groups)
     rng.shuffle(keys)
     pos = dict((k, 0) for k in groups)
     out = []
@@ -333,7 +338,20 @@ def model_text(fmt, o):
 
 
 def order_kept(fmt, spec, text):
-    """a module's rpm list is written in the caller's order (calls with a unique target only)"""
+    """a module's rpm list is written in the caller's order (calls with a unique target only); the extra-file entries of one
+    [variant][arch] are written in the order of the accepted calls"""
+    if fmt == "extra_files":
+        doc = json.loads(text)
+        want = {}
+        for o in spec["ops"]:
+            c = cell_of(fmt, o)
+            if c is not None:
+                want.setdefault(tuple(c), []).append(o["path"])
+        for (v, a), paths in want.items():
+            got = [e.get("file") for e in doc["payload"]["extra_files"].get(v, {}).get(a, [])]
+            if got != paths:
+                return "the entries of extra_files[%r][%r] were added in the order %r and are written in the order %r" % (v, a, paths, got)
+        return None
     if fmt != "modules":
         return None
     doc = json.loads(text)
